@@ -81,7 +81,9 @@ def unwrap_future(maybe_future):
                 r = f.result()
             except CancelledError:
                 outer.cancel()
-            except Exception as err:
+            # Whatever a task raised is the task's outcome (the pool stores any
+            # BaseException): not handing it on would leave `outer` pending.
+            except BaseException as err:  # noqa: B902
                 outer.set_exception(err)
             else:
                 if _is_future_fast(r):
@@ -149,11 +151,12 @@ def gather_futures(source: Iterable[MaybeFuture[T]]) -> "MaybeFuture[List[T]]":
 
         try:
             d.result()
-        except Exception as err:
+        except BaseException as err:  # noqa: B902
             outer.set_exception(err)
             return
 
-        if done == target_count:
+        # (once a failure has been handed on there is nothing left to collect)
+        if done == target_count and not outer.done():
             outer.set_result(
                 cast(
                     "List[T]",
@@ -210,6 +213,8 @@ def chain(
                         target.set_exception(err)
                 else:
                     target.set_exception(err)
+            except BaseException as err:  # noqa: B902
+                target.set_exception(err)
             else:
                 target.set_result(res)
 
